@@ -253,6 +253,7 @@ def _specials_shard(args):
     sub = Sub("specials")
     evals = nontrivial = 0
     tmpdir = tempfile.mkdtemp(prefix="c13s-")
+    ebcdic = _encodable(special, "cp037") and _encodable(special, "cp500")
     try:
         for length in range(1, max_len + 1):
             for chars in itertools.product("a" + special + "\n", repeat=length):
@@ -263,6 +264,12 @@ def _specials_shard(args):
                     for setting in ("any", "lf", "none"):
                         judge(sub, text, widths, setting)
                         evals += 1
+                        if ebcdic:
+                            # the declared encoding is a mainframe code page (for a stream it says nothing at all)
+                            judge(sub, text, widths, setting, "stream", "cp037")
+                            if length <= 3:
+                                judge(sub, text, widths, setting, "path", "cp500", tmpdir)
+                            evals += 1
                         # by path: the declared codec must hand the character on as data as well
                         if length <= 3 or (text[0] == special or text[-1] == special):
                             judge(sub, text, widths, setting, "path", "utf-8", tmpdir)
